@@ -20,6 +20,9 @@ var c01Sizes = []int{0, 1, 2, 21, 22, 23, 100, 1426, 1427, 1428, 1447, 1448, 144
 type writePlan struct {
 	Size    int
 	PauseMs int
+	// Count > 1 repeats the write (one frame per repetition from the
+	// reference peer, one Write call per repetition from the real side).
+	Count int `json:",omitempty"`
 }
 
 func drawWrites(c *harness.Ctx, label string, maxN int) []writePlan {
@@ -37,7 +40,7 @@ func drawWrites(c *harness.Ctx, label string, maxN int) []writePlan {
 			sz = c01Sizes[t.Draw(label+".szi", len(c01Sizes))]
 		}
 		pause := []int{0, 0, 0, 1, 30, 1000}[t.Draw(label+".pause", 6)]
-		out = append(out, writePlan{sz, pause})
+		out = append(out, writePlan{Size: sz, PauseMs: pause})
 	}
 	return out
 }
@@ -45,9 +48,16 @@ func drawWrites(c *harness.Ctx, label string, maxN int) []writePlan {
 func planTotal(p []writePlan) int64 {
 	var n int64
 	for _, w := range p {
-		n += int64(w.Size)
+		n += int64(w.Size) * int64(w.reps())
 	}
 	return n
+}
+
+func (w writePlan) reps() int {
+	if w.Count > 1 {
+		return w.Count
+	}
+	return 1
 }
 
 // streamSide drives one endpoint of an established connection: a writer task
@@ -75,21 +85,23 @@ func (sd *streamSide) start(c *harness.Ctx, conn net.Conn, prop string) {
 				c.S.Sleep(msec(w.PauseMs))
 			}
 			buf := make([]byte, w.Size)
-			patFill(sd.dirOut, off, buf)
-			n, err := conn.Write(buf)
-			// io.Writer: "Write must not retain p" - the application is free to
-			// reuse its buffer as soon as Write has returned (io.Copy does)
-			for i := range buf {
-				buf[i] = 0xEE
+			for rep := 0; rep < w.reps(); rep++ {
+				patFill(sd.dirOut, off, buf)
+				n, err := conn.Write(buf)
+				// io.Writer: "Write must not retain p" - the application is free to
+				// reuse its buffer as soon as Write has returned (io.Copy does)
+				for i := range buf {
+					buf[i] = 0xEE
+				}
+				if *sd.ending {
+					return
+				}
+				if err != nil || n != len(buf) {
+					c.Violate(prop+"/write-failed", "%s Write(%d bytes at offset %d, call %d of %d) = (%d, %v)", sd.name, len(buf), off, rep+1, w.reps(), n, err)
+					return
+				}
+				off += int64(n)
 			}
-			if *sd.ending {
-				return
-			}
-			if err != nil || n != len(buf) {
-				c.Violate(prop+"/write-failed", "%s Write(%d bytes at offset %d) = (%d, %v)", sd.name, len(buf), off, n, err)
-				return
-			}
-			off += int64(n)
 		}
 		sd.wrDone = true
 	})
